@@ -367,7 +367,9 @@ func main() {
 		})
 
 		r.Part("E3-ControlWriter-sequences", func(t *explore.T) {
-			sizes := []int{0, 1, 62, 63, 64, 124, 125, 126}
+			// negative: io.Copy of that many bytes from a plain reader into the control writer
+			// (goes through the writer's ReadFrom if it has one, through Write otherwise)
+			sizes := []int{0, 1, 62, 63, 64, 124, 125, 126, -1, -63, -124, -125}
 			type ctor struct {
 				name string
 				mk   func(d io.Writer, st ws.State, op ws.OpCode) *wsutil.ControlWriter
@@ -411,12 +413,33 @@ func main() {
 								var accepted []byte
 								pos := 0
 								for _, k := range seq {
+									viaCopy := k < 0
+									if viaCopy {
+										k = -k
+									}
 									p := make([]byte, k)
 									for i := range p {
 										p[i] = byte(pos + i + 1)
 									}
 									before := len(d.Calls)
-									n, err := cw.Write(p)
+									var n int
+									var err error
+									if viaCopy {
+										var n64 int64
+										n64, err = io.Copy(cw, struct{ io.Reader }{bytes.NewReader(p)})
+										n = int(n64)
+									} else {
+										n, err = cw.Write(p)
+									}
+									if err != nil && viaCopy && n > 0 && n <= k {
+										// a copy may stop part-way: what it reports as written counts as accepted
+										accepted = append(accepted, p[:n]...)
+										pos += n
+										if len(accepted) > 125 {
+											return explore.Failf("write-beyond-limit-accepted", "accepted total %d > 125 (writes %v)", len(accepted), seq)
+										}
+										continue
+									}
 									if err != nil {
 										if n != 0 {
 											return explore.Failf("failed-write-accepted-bytes", "n=%d err=%v", n, err)
